@@ -299,10 +299,17 @@ def _execute_vfs(case, glyphs):
                {"loc": {"Weight": 700}, "ufo": {"glyphs": g2, "info": dict(bold_info)}, "name": "m1"}]
     over = dict(case["vfInfo"])
     pinned = False        # (pinning the only axis leaves no axis: not a variable font)
+    # two more variable fonts share KeepVF's default master but override only every second key each (disjoint halves): what one
+    # variable font overrides must not show in another
+    keys = sorted(over)
+    halfA = {k_: over[k_] for k_ in keys[0::2]}
+    halfB = {k_: over[k_] for k_ in keys[1::2]}
     vfs = [{"name": "KeepVF", "lib": {"public.fontInfo": dict(over)}},
-           {"name": "ShiftVF", "lib": {"public.fontInfo": dict(over)}, "subsets": {"Weight": {"value": 700} if pinned else {"default": 700}}}]
+           {"name": "ShiftVF", "lib": {"public.fontInfo": dict(over)}, "subsets": {"Weight": {"value": 700} if pinned else {"default": 700}}},
+           {"name": "HalfAVF", "lib": {"public.fontInfo": dict(halfA)}}, {"name": "HalfBVF", "lib": {"public.fontInfo": dict(halfB)}}]
     if len(over) % 3 == 0:
         vfs.reverse()
+    overs = {"KeepVF": over, "ShiftVF": over, "HalfAVF": halfA, "HalfBVF": halfB}
     fam = {"axes": [{"name": "Weight", "tag": "wght", "min": 400, "default": 400, "max": 700}], "masters": masters, "variableFonts": vfs}
     ds = dsbuild.build_designspace(fam, case["lib"])
     recs = []
@@ -312,9 +319,11 @@ def _execute_vfs(case, glyphs):
         err = None
     except Exception as e:  # noqa
         outs, err = {}, e
-    for vfname, minfo in (("KeepVF", base_info), ("ShiftVF", bold_info)):
+    for vfname, minfo in (("KeepVF", base_info), ("ShiftVF", bold_info), ("HalfAVF", base_info), ("HalfBVF", base_info)):
+        if not overs[vfname]:
+            continue      # (an empty override dict: nothing of the variable font's own to check)
         info = dict(minfo)
-        info.update(over)
+        info.update(overs[vfname])
         rec = {"tid": f"{case['cid']}/{vfname}", "present": sorted(a for a in info if a in NUM_ATTRS or a in STR_ATTRS), "flavor": case["flavor"],
                "num": {a: absfont.to_scaled(v, 4) for a, v in info.items() if a in NUM_ATTRS},
                "str": {a: _cps(v) for a, v in info.items() if a in STR_ATTRS}, "_vf": True}
